@@ -276,11 +276,11 @@ func (c *C06Case) runInto() (res stat.Result) {
 	total := len(c.Prefix) + c.Spare
 	var region []byte
 	canary := 64
-	if c.AtGuard {
+	if c.AtGuard && canary+total <= c05GuardSize {
 		c05GuardMu.Lock()
 		defer c05GuardMu.Unlock()
 		if c05Guard == nil {
-			g, err := newGuarded(1 << 16)
+			g, err := newGuarded(c05GuardSize)
 			if err != nil {
 				panic("harness: mmap failed: " + err.Error())
 			}
